@@ -8,8 +8,10 @@ import (
 	"wa-lang.org/wa/internal/token"
 )
 
-func (p *printer) declStructType(s *ast.TypeSpec) {
-	p.print(s.Pos(), token.Zh_结构, token.K_点)
+// pos is the position of the keyword (the declaration's), not of the name:
+// the printer flushes the comments that lie before the position it is given.
+func (p *printer) declStructType(pos token.Pos, s *ast.TypeSpec) {
+	p.print(pos, token.Zh_结构, token.K_点)
 	p.setComment(s.Doc)
 	p.expr(s.Name)
 	p.struct_exprTypeSpec(s.Type.(*ast.StructType))
